@@ -39,7 +39,7 @@ prop("C03", "exploration",
      _b(2000, 60, 100000, 1200))
 
 NOT_APPLICABLE = {}
-HOOK_COMMITS = ["a570d77", "0974401", "833dae9", "d356e32", "3e7972b", "deee054", "809cbd9"]
+HOOK_COMMITS = ["a570d77", "0974401", "833dae9", "d356e32", "3e7972b", "deee054", "809cbd9", "1956e0d"]
 
 prop("C04", "exploration",
      "lifecycle world: 1-2 real requestors and a real responder, 1-3 requests, per request a scripted environment (request hook accept/terminate/pause/reject, block hook pause/error at block k, requestor response-hook error, requestor block-hook pause/error) and up to two caller/operator actions (context cancel, Cancel API, pause/unpause on either side, updates) enabled from a drawn step; fault family adds send failures, lost acks, connect failures, disconnects, store read errors and small retry counts; after heal every paused exchange is unpaused, then every open request is cancelled by its caller and drained; distinct = distinct trace hash",
@@ -66,4 +66,8 @@ prop("C22", "fault_enumeration",
 
 prop("C21", "exploration",
      "one real responder with MaxInProgressIncomingRequests 1-4 and per-peer limit 0-3, 2-4 real requestors with MaxInProgressOutgoingRequests 1-3, 3-10 requests issued in bursts and trickles as the scheduler decides; task duration = how long the scheduler holds each request's block loads (load weight drawn per run); some queued requests are cancelled (which freezes the peer in go-peertaskqueue until the 100 ms thaw ticker fires on the fake clock); invariant after every step: traversals parked in a responder block load <= limits, requestor executions announced and still holding their connection protection <= outgoing limit; at the end every non-cancelled request delivered the reference traversal; distinct = distinct trace hash",
-     _b(800, 90, 30000, 1200), probes=["c21-cancel"])
+     _b(800, 90, 30000, 1200), probes=["c21-cancel", "c21-incoming-limit-reached", "c21-outgoing-limit-reached"])
+
+prop("C25", "exploration",
+     "family responder: one real responder with 3-5 workers, peer S whose connection is stalled for good (every write to it blocks; no timeout is allowed to fire: the drain lets at most 20 simulated seconds pass, the send timeout is 10 min) and, in 70% of runs, a memory allowance of about two of its blocks; S has 1-2 requests in flight and keeps sending updates, cancels and new requests; peers X and Y send 2-5 requests whose request hooks accept, send extension data, pause (resumed by an update whose hook unpauses), or reject. family requestor: one real requestor whose sends to responder S stall while it fetches from X and Y. Oracle: every request of X and Y completes with the reference result; on failure the blocked call site of the actor loop is read from the goroutine dump; distinct = distinct trace hash",
+     _b(800, 90, 30000, 1200), probes=["send-stalled-for-good", "c25-S-newreq", "c25-S-update"])
